@@ -23,7 +23,7 @@ BOUNDS = {
              "x every linear extension of the message order x zero patterns {none, some cells -inf, a whole separator slice -inf}; "
              "4-attribute catalogue (9 structures) sizes (2,2,2,2) with None + 3 given orders",
     "thorough": "quick + 4-attribute catalogue with all 24 orders and sizes (2,3,2,2); 5-attribute chain/cycle/branch structures, sizes 2, "
-                "None + 8 given orders (incl. orders that need second-order fill-in)",
+                "None + 8 given orders (incl. orders that need second-order fill-in); all 120 orders for the 5-chain/5-cycle; sizes (3,3,3); 6-attribute chain/cycle/2x3 grid",
 }
 OUTSIDE = ("the float clause 'stays finite for potentials far outside the range of exp()' (real-number semantics only); "
            "domains beyond 5 attributes / sizes beyond 3; set-iteration orders other than the PYTHONHASHSEED in use")
@@ -59,6 +59,12 @@ def configs(tier, seed):
         p5 = [tuple(p) for p in itertools.permutations("abcde")]
         add(CAT5, "abcde", (2, 2, 2, 2, 2), o5 + p5[7::11], ["none", "slice", "some"], cost=8)
         add(CAT5, "abcde", (2, 3, 2, 2, 3), [None, tuple("cabed")], ["none"], core_=False, cost=60)
+        add(CAT3, "abc", (3, 3, 3), [None, ("b", "a", "c"), ("c", "b", "a")], ["none", "slice"], cost=6)
+        add({"cycle5": CAT5["cycle5"], "chain5": CAT5["chain5"]}, "abcde", (2, 2, 2, 2, 2), p5, ["none"], cost=8)
+        CAT6 = {"chain6": [("a", "b"), ("b", "c"), ("c", "d"), ("d", "e"), ("e", "f")],
+                "cycle6": [("a", "b"), ("b", "c"), ("c", "d"), ("d", "e"), ("e", "f"), ("f", "a")],
+                "grid2x3": [("a", "b"), ("b", "c"), ("d", "e"), ("e", "f"), ("a", "d"), ("b", "e"), ("c", "f")]}
+        add(CAT6, "abcdef", (2, 2, 2, 2, 2, 2), [None, tuple("abcdef"), tuple("fdbeca"), tuple("cfaebd")], ["none"], core_=False, cost=120)
     return cfgs
 
 
